@@ -15,3 +15,6 @@ func stateDump(w io.Writer, t *iavl.MutableTree) { iavl.VerifStateDump(w, t) }
 func immutableDump(w io.Writer, t *iavl.ImmutableTree) { iavl.VerifImmutableDump(w, t) }
 
 func storageVersionLabel(t *iavl.MutableTree) string { return iavl.VerifStorageVersion(t) }
+
+// scramblePools: see VerifScramblePools (called after every operation of an execution).
+func scramblePools() { iavl.VerifScramblePools() }
